@@ -175,6 +175,9 @@ func (fg *FnGen) appendOp(args []*Val, resT types.Type, pos token.Pos) *Val {
 		// prefix preserved (absolute index j into the result array; patterns without arithmetic)
 		pre := Implies(And(Le(roff, j), Lt(j, Add(roff, n))), Eq(Select(fresh, j), Select(old, Add(off, Sub(j, roff)))))
 		fg.assume(Term{fmt.Sprintf("(forall ((j! Int)) (! %s :pattern (%s)))", pre.S, Select(fresh, j).S), SBool})
+		// the same fact indexed by the position in the source array (so that a term about an old element finds its copy)
+		preR := Implies(And(Le(off, j), Lt(j, Add(off, n))), Eq(Select(fresh, Add(roff, Sub(j, off))), Select(old, j)))
+		fg.assume(Term{fmt.Sprintf("(forall ((j! Int)) (! %s :pattern (%s)))", preR.S, Select(old, j).S), SBool})
 		// in-place: everything outside [off+n, off+n+k) unchanged
 		inp := Implies(And(inplace, Or(Lt(j, Add(off, n)), Ge(j, Add(off, Add(n, k))))), Eq(Select(fresh, j), Select(old, j)))
 		fg.assume(Term{fmt.Sprintf("(forall ((j! Int)) (! %s :pattern (%s)))", inp.S, Select(fresh, j).S), SBool})
@@ -183,6 +186,8 @@ func (fg *FnGen) appendOp(args []*Val, resT types.Type, pos token.Pos) *Val {
 			lo := Add(roff, n)
 			ap := Implies(And(Le(lo, j), Lt(j, Add(lo, k))), Eq(Select(fresh, j), Select(srcInner, Add(srcOff, Sub(j, lo)))))
 			fg.assume(Term{fmt.Sprintf("(forall ((j! Int)) (! %s :pattern (%s)))", ap.S, Select(fresh, j).S), SBool})
+			apR := Implies(And(Le(srcOff, j), Lt(j, Add(srcOff, k))), Eq(Select(fresh, Add(lo, Sub(j, srcOff))), Select(srcInner, j)))
+			fg.assume(Term{fmt.Sprintf("(forall ((j! Int)) (! %s :pattern (%s)))", apR.S, Select(srcInner, j).S), SBool})
 		}
 		if fg.pass == 2 && !fg.modAll {
 			// in-place append writes into the backing array of s
@@ -246,7 +251,7 @@ func (fg *FnGen) mapLen(st *State, m *Val, mt *types.Map) Term {
 	mc := mapComp(mt)
 	ln := fg.get(st, mc+"!len", ArrSort(SInt))
 	r := Select(ln, m.one())
-	fg.assume(Ge(r, IntLit(0)))
+	fg.assume(And(Ge(r, IntLit(0)), Le(r, maxLenTerm))) // machine assumption: no map has more than 2^50 entries
 	fg.assume(Implies(Eq(m.one(), IntLit(0)), Eq(r, IntLit(0))))
 	return r
 }
